@@ -28,10 +28,13 @@ case "$(basename "$0")" in fakelli-*) echo "fake-lli" ;; esac
 exit ${FAKE_EXIT:-0}
 """
 
-A_ONE = 'fn main() -> u8\n{\n\tprint!("hi\\n");\n\teprint!("ho\\n");\n\tvar r: u8 = 3;\n\treturn: r\n}\n'
-A_TWO = 'import "b.pn";\n\nfn main() -> u8\n{\n\tprint!("hi\\n");\n\tvar r: u8 = b_three();\n\treturn: r\n}\n'
+# (the program prints two bytes that are no UTF-8 text, written with the documented \xHH escape: "passes its output through"
+# is about bytes)
+A_ONE = 'fn main() -> u8\n{\n\tprint!("hi \\xA3\\xFF\\n");\n\teprint!("ho\\n");\n\tvar r: u8 = 3;\n\treturn: r\n}\n'
+A_TWO = 'import "b.pn";\n\nfn main() -> u8\n{\n\tprint!("hi \\xA3\\xFF\\n");\n\tvar r: u8 = b_three();\n\treturn: r\n}\n'
 B_OK = "pub fn b_three() -> u8\n{\n\treturn: 3\n}\n"
 BAD = {"lex": "\tvar q: u8 = 1 @;\n", "sem": "\tvar q: u8 = nothing;\n"}
+PROG_OUT = b"hi \xa3\xff\n"
 PARAMS = ["sub", "implicit", "verb", "color", "arrows", "wasm", "outdir", "flag", "env", "cfg", "bfail", "input", "nmods", "path", "high", "bsig"]
 
 
@@ -115,7 +118,8 @@ def run_config(penne, root, idx, case):
         rc, out, err = p.returncode, p.stdout, p.stderr
     except subprocess.TimeoutExpired:
         rc, out, err = "timeout", b"", b""
-    obs = {"rc": rc, "stdout": out.decode("utf-8", "replace"), "stderr": err.decode("utf-8", "replace"), "argv": args[1:]}
+    obs = {"rc": rc, "stdout": out.decode("utf-8", "replace"), "stderr": err.decode("utf-8", "replace"), "argv": args[1:],
+           "stdout_hex": out.hex()}
     log_path = os.path.join(d, "backend.log")
     obs["backend_log"] = open(log_path).read().splitlines() if os.path.exists(log_path) else []
     obs["backend_stdin_head"] = open(log_path + ".stdin", errors="replace").read()[:200] if os.path.exists(log_path + ".stdin") else ""
@@ -186,15 +190,15 @@ def compare(case, obs):
     if e["silent"]:
         visible = obs["stdout"]
         if c["sub"] == "run":
-            for prog in ("hi\n", "fake-lli\n"):
+            for prog in (PROG_OUT.decode("utf-8", "replace"), "fake-lli\n"):
                 visible = visible.replace(prog, "", 1)
         if visible.strip():
             out.append(("silent", "--silent but stdout shows: %r" % visible.strip()[:120]))
     # run: program output passes through, exit status is shown
     if c["sub"] == "run" and e["invoked"]:
-        prog = "hi\n" if real_lli else "fake-lli\n"
-        if prog not in obs["stdout"]:
-            out.append(("run-output", "the program's output %r is not passed through" % prog))
+        prog = PROG_OUT if real_lli else b"fake-lli\n"
+        if prog not in bytes.fromhex(obs.get("stdout_hex", "")):
+            out.append(("run-output", "the program's output %r is not passed through byte for byte" % prog))
         # ... and so is what the program writes to its standard error (one module: `eprint!("ho\n")` in main)
         if real_lli and c["nmods"] == 1 and "ho\n" not in obs["stderr"]:
             out.append(("run-output", "the program's standard error output 'ho' is not passed through"))
